@@ -324,10 +324,13 @@ Definition reopen (w : world) : world := mkWorld (fs w) [].
 
 (* ---------- faults ---------- *)
 
+(* the operations an injected I/O error can hit.  A chunk write into a temp file ([WriteChunk]: a full
+   disk in the middle of store_object / store_metadata) and the write of the new line of a cid list
+   ([AppendWrite]) are among them: the failing write answers [AErr EFault] and has no effect *)
 Definition is_site (o : op) : bool :=
   match o with
-  | Read _ | OpenSrc | MkTmp _ _ | OpenWr _ _ | Rename _ _ | Remove _ | MkDirs _
-  | AppendOpen _ | OpenRW _ | Acquire LFile _ => true
+  | Read _ | OpenSrc | MkTmp _ _ | WriteChunk _ | OpenWr _ _ | Rename _ _ | Remove _ | MkDirs _
+  | AppendOpen _ | AppendWrite _ _ | OpenRW _ | Acquire LFile _ => true
   | _ => false
   end.
 
@@ -336,7 +339,7 @@ Inductive dest := DAddr (a : addr) | DTmpDir (ar : area) | DDirOf (a : addr) | D
 
 Definition dest_of (o : op) : dest :=
   match o with
-  | Read a | OpenWr a _ | Remove a | AppendOpen a | OpenRW a => DAddr a
+  | Read a | WriteChunk a | OpenWr a _ | Remove a | AppendOpen a | AppendWrite a _ | OpenRW a => DAddr a
   | Rename _ d => DAddr d
   | Acquire LFile (IDoc a) => DAddr a
   | MkTmp ar _ => DTmpDir ar
